@@ -44,7 +44,7 @@ def read_gen():
     reps = [[int(x) for x in grp.split(";") if x.strip()] for grp in re.findall(r"\[([^\[\]]*)\]", m.group(1))]
     ncls = int(re.search(r"Definition ncls : nat := (\d+)", txt).group(1))
     assert len(reps) == ncls
-    return reps
+    return reps, "translation_refused : bool := true" in txt
 
 
 # --------------------------------------------------------------------- Coq terms
@@ -377,7 +377,7 @@ def run(ctx):
     rng = ctx.rng
     out = {"failures": [], "mismatches": [], "errors": [], "histogram": {}, "extra": {}, "evaluations": 0, "_confirm": []}
     try:
-        reps = read_gen()
+        reps, refused = read_gen()
     except Exception as e:
         return {"errors": [f"cannot read coq/gen/Regexes.v: {e}"], "corr_name": "C19", "evaluations": 0,
                 "distinct_nontrivial": 0, "rule": "", "samples": [], "histogram": {}, "mismatches": [], "failures": []}
@@ -488,6 +488,11 @@ def run(ctx):
         out["errors"].append("the numbers of accepted / StyleError / ValueError strings differ from the documented "
                              "grammar's but no individual failing specifier was confirmed")
 
+    if refused:
+        # the implementation model is a stub (tx_regex.py refused the source; reported by the
+        # driver as a broken obligation): only the judgement against the documentation counts
+        out["extra"]["implementation_model"] = "stub: translator refused the source; model mismatches ignored"
+        out["mismatches"] = []
     distinct = {(st, sp) for st, sp, _ in all_triples} | {(st, sp) for st, sp, _, _ in acc_cases}
     return {
         "corr_name": "format(image, spec) on BlockImage/KittyImage/ITerm2Image == FmtSpec model == documented grammar and meaning",
